@@ -263,6 +263,8 @@ def run(chk, tier, seed):
             items.append(('C18', 'C18.lang.bytes==str', p, fl, False, 'glob', chk.known))
     counts, secs = LC.run_items(chk, LC.bytes_item, items)
     n = api_level(chk, tier)
+    from checks import fixed_clauses
+    fixed_clauses.bytes_without_inclusions(chk)
     chk.rule = ('finite: every paired (str, bytes) constant and POSIX table entry compared completely; L: one case = one (ASCII pattern, flags): the bytes regex and the str regex '
                 'are language-equal over ALL byte strings (alphabet 0..255), incl. every POSIX class, reversed ranges; B: API-level f(x) vs f(encode(x)) for filter / globfilter / '
                 'translate / is_magic / escape, mixed-type calls, glob and WcMatch on trees with str vs bytes roots (same order)')
